@@ -6,7 +6,7 @@ ROOT = pathlib.Path(__file__).resolve().parents[1]
 tmpl = (ROOT / "tools" / "design_sec10.md").read_text()
 res = json.loads((ROOT / "seeded" / "RESULTS.json").read_text()) if (ROOT / "seeded" / "RESULTS.json").exists() else {}
 rows = ["| id | the change | needs to manifest | caught by (quick tier) — smallest failing case reported |", "|---|---|---|---|"]
-for d in sorted(glob.glob(str(ROOT / "seeded" / "C*-[mw]*"))):
+for d in sorted(glob.glob(str(ROOT / "seeded" / "C*-[mwxy]*"))):
     m = json.loads(open(d + "/meta.json").read()); sid = m["id"]; r = res.get(sid, {})
     cell = "; ".join(f"{k.split('/')[0]}: " + ("`" + v["smallest_failing_case"][:90].replace("|", "/").replace("`", "'") + "`" if v["caught"] else "**missed**") for k, v in sorted(r.items())) or "not run"
     rows.append(f"| {sid} | {m['summary'][:230].replace('|', '/')} | {m.get('needs_to_manifest', '')[:200].replace('|', '/')} | {cell} |")
@@ -16,10 +16,12 @@ if s7.exists():
     tmpl = tmpl.replace("SEED7_SUMMARY", f"{len(r7) - len(missed)} of {len(r7)} are caught" + (f" (missed under that seed: {', '.join(missed)})." if missed else "."))
 else:
     tmpl = tmpl.replace("SEED7_SUMMARY", "(run pending).")
+w4 = ROOT / "tools" / "design_wave4.md"
+tmpl = tmpl.replace("WAVE4_TEXT", w4.read_text() if w4.exists() else "(evaluation in progress)")
 tmpl = tmpl.replace("N_SEEDED", str(len(rows) - 2)).replace("SEEDED_TABLE", "\n".join(rows))
 sw = []
 tot = [0, 0, 0]
-for f in sorted(glob.glob(str(ROOT / "selftest" / "sweep_*.json"))):
+for f in sorted(glob.glob(str(ROOT / "selftest" / "sweep_round2" / "sweep_*.json"))):
     r = json.loads(open(f).read()); s = [x for x in r if x["tests_pass"]]; fl = [x for x in s if any(v == "flagged" for v in x["checks"].values())]
     tot[0] += len(r); tot[1] += len(s); tot[2] += len(fl)
     sw.append(f"| `{r[0]['file'] if r else f}` | {len(r)} | {len(s)} | {len(fl)} | {len(s) - len(fl)} |")
